@@ -12,7 +12,7 @@ def obligations(tier):
     t = 200 if tier == "quick" else 900
     for m in MODES:
         obs.append(Ob(f"C12.shape/{m}", "c10", "c_json", {"VF_MODE": m}, t, FN12,
-                      "1..2 columns, schema or not, optional index, ALTER FK none/1/2 cols, group_by_type symbolic; keys/types of the table entry, "
+                      "1..2 columns, schema or not, optional index, ALTER FK none/1/2 cols, optional DROP TABLE entry, group_by_type symbolic; keys/types of the table entry, "
                       "primary_key subset of column names, pure-Python jsonable(), json_dump=True == json.dumps(result)"))
     for i in (15, 16, 2):
         obs.append(Ob(f"C12.pk/item1={i}", "drv", "c_items", {"VF_I1": i, "VF_NAMES": 0}, 300 if tier == "quick" else 900,
